@@ -248,11 +248,16 @@ impl<Entities> Batch<Entities> {
 #[macro_export]
 macro_rules! entities {
     (($component:expr $(,$components:expr)* $(,)?); $n:expr) => {
-        // SAFETY: Each `Vec` created here will be of length `$n`.
-        unsafe {
-            $crate::entities::Batch::new_unchecked(
-                ($crate::reexports::vec![$component; $n], $crate::entities!(@cloned ($($components),*); $n))
-            )
+        {
+            // The length expression is evaluated exactly once, so that every column is given the
+            // same length even if the expression has side effects.
+            let n: usize = $n;
+            // SAFETY: Each `Vec` created here will be of length `n`.
+            unsafe {
+                $crate::entities::Batch::new_unchecked(
+                    ($crate::reexports::vec![$component; n], $crate::entities!(@cloned ($($components),*); n))
+                )
+            }
         }
     };
     ($(($($components:expr),*)),+ $(,)?) => {
